@@ -211,6 +211,7 @@ PROPS = {
                lambda c: sched.sched_span(c, (sched.FF,)), lambda c: sched.avg_rate(c, (sched.FF,)),
                lambda c: layout.init_state(c, (sched.FF,)), layout.call_roles,
                kal.kal_rules, kal.use_after_overwrite, kal.vl_rules, smmodel.sm_model,
+               layout.traj_roles,
                lambda c: interp.interp_rules(c, ('feedforward',))],
         decided=['every measurement sample is fused exactly once (epoch list de-duplicated, cursor pairing, no epoch overtaken: the C10 rules on the feedforward loop)',
                  'the epoch state is the interpolation between the bracketing rows with the elapsed fraction; propagation matrices at the mid-point state',
